@@ -143,19 +143,29 @@ Definition truthy_res (v : val) : bool := truthy v.
 (* comparison of M expressions *)
 Definition is_cmp_plain (v : val) : bool :=
   match v with VNone | VBool _ | VInt _ | VStr _ | VDict _ _ _ | VObj _ _ _ => true | _ => false end.
+(* sets are ordered by inclusion — a PARTIAL order: neither a <= b nor a >= b need hold, so <= is its own relation, not "not >" *)
+Definition set_subset (a b : list val) : bool := forallb (fun x => mem py_eqb x b) a.
 Definition py_lt (a b : val) : res bool :=
   match as_num a, as_num b with
   | Some x, Some y => Ok (Z.ltb x y)
   | _, _ => match a, b with
             | VStr x, VStr y => Ok (match String.compare x y with Lt => true | _ => false end)
+            | VSet _ _ x, VSet _ _ y => Ok (set_subset x y && negb (set_subset y x))
+            | _, _ => if is_cmp_plain a && is_cmp_plain b then Raise (simple_exn "TypeError") else Unmodelled "compare" end end.
+Definition py_le (a b : val) : res bool :=
+  match as_num a, as_num b with
+  | Some x, Some y => Ok (Z.leb x y)
+  | _, _ => match a, b with
+            | VStr x, VStr y => Ok (match String.compare x y with Gt => false | _ => true end)
+            | VSet _ _ x, VSet _ _ y => Ok (set_subset x y)
             | _, _ => if is_cmp_plain a && is_cmp_plain b then Raise (simple_exn "TypeError") else Unmodelled "compare" end end.
 Definition m_compare (op : string) (l r : val) : res bool :=
   if String.eqb op "=" then Ok (py_eqb l r)
   else if String.eqb op "!" then Ok (negb (py_eqb l r))
   else if String.eqb op "<" then py_lt l r
   else if String.eqb op ">" then py_lt r l
-  else if String.eqb op "l" then (do b <- py_lt r l; Ok (negb b))      (* l <= r  =  not (r < l) on totally ordered operands *)
-  else if String.eqb op "g" then (do b <- py_lt l r; Ok (negb b))
+  else if String.eqb op "l" then py_le l r
+  else if String.eqb op "g" then py_le r l
   else Unmodelled "m-op".
 
 (* ---------- handler loops (open recursion) ---------- *)
